@@ -9,6 +9,7 @@ import (
 	"io"
 	"math/rand"
 	"net/http"
+	"os"
 	"regexp"
 	"runtime"
 	"strconv"
@@ -65,6 +66,7 @@ type World struct {
 	etagTab  map[string]int
 	varyTab  map[string][]int
 	effHdr   map[string]http.Header // tok -> end-to-end headers expected now (after the 304s applied so far)
+	tagNS    map[string]bool        // tag -> the response carried no-store (known by construction)
 	servedX  map[int]string         // exchange -> body token it was answered with from the store
 	bg304    map[int][]string       // exchange -> tags of 304s its background revalidation received
 	hangs    []chan struct{}
@@ -74,7 +76,7 @@ type World struct {
 	gate     *gateCtl
 }
 
-func newWorld(sc *Scenario, log *EventLog, seed int64) *World {
+func newWorld(sc *Scenario, log *EventLog, seed, baseSeed int64) *World {
 	w := &World{
 		sc: sc, log: log, epoch: time.Now(),
 		rnd:     rand.New(rand.NewSource(seed)),
@@ -87,11 +89,16 @@ func newWorld(sc *Scenario, log *EventLog, seed int64) *World {
 		etagTab: map[string]int{},
 		varyTab: map[string][]int{},
 		effHdr:  map[string]http.Header{},
+		tagNS:   map[string]bool{},
 		servedX:  map[int]string{},
 		bg304:   map[int][]string{},
 		scnSeed: seed,
 	}
-	w.con = concretiser{rnd: w.rnd}
+	numSeed := seed
+	if sc.Grp != "" {
+		numSeed = scnSeed(sc.Grp, baseSeed)
+	}
+	w.con = concretiser{rnd: w.rnd, rndNum: rand.New(rand.NewSource(numSeed))}
 	return w
 }
 
@@ -222,8 +229,12 @@ func (w *World) buildResponse(req *http.Request, a *Ans, now time.Time) (*http.R
 			add("Cache-Control", l)
 		}
 		mean := ccMeaning{Ma: a.Ma, Swr: a.Swr, Sie: a.Sie, Ncf: a.Ncf, Fl: strs(a.Fl)}
+		trimmed := make([]string, len(lines))
+		for i, l := range lines {
+			trimmed[i] = strings.Trim(l, " \t") // net/http trims field values
+		}
 		w.mu.Lock()
-		w.ccTab[strings.Join(lines, "\x00")] = mean
+		w.ccTab[strings.Join(trimmed, "\x00")] = mean
 		w.mu.Unlock()
 		m["ma"], m["fl"], m["swr"], m["sie"], m["ncf"] = a.Ma, strs(a.Fl), a.Swr, a.Sie, a.Ncf
 	}
@@ -394,6 +405,9 @@ func (w *World) buildResponse(req *http.Request, a *Ans, now time.Time) (*http.R
 		fmt.Fprintf(&wire, "Content-Length: %d\r\n\r\n", len(body))
 		wire.Write(body)
 	}
+	if os.Getenv("VERIF_DUMP") == "1" {
+		fmt.Fprintf(os.Stderr, "---- %s %s\n%s\n", w.sc.ID, req.URL, strings.SplitN(wire.String(), "\r\n\r\n", 2)[0])
+	}
 	resp, err := http.ReadResponse(bufio.NewReader(&wire), req)
 	if err != nil {
 		panic(fmt.Sprintf("harness: cannot build response: %v\n%q", err, wire.String()))
@@ -418,6 +432,7 @@ func (w *World) buildResponse(req *http.Request, a *Ans, now time.Time) (*http.R
 		w.effHdr[tok] = e2e.Clone()
 	}
 	w.tagHdr[tag] = e2e
+	w.tagNS[tag] = a.CCP == 1 && contains(a.Fl, "no-store")
 	w.mu.Unlock()
 	return resp, m, tag, tok
 }
